@@ -2,6 +2,7 @@ package main
 
 import (
 	"fmt"
+	"os"
 	"go/types"
 	"strings"
 
@@ -143,6 +144,15 @@ func runC19(c *Ctx) {
 		root := rootOf(fn)
 		pos := w.instrPos(cs)
 		args := cs.Common().Args
+		isReq := func(r *ssa.Function) bool {
+			return r != nil && len(r.Params) > 0 && strings.HasSuffix(r.Params[0].Type().String(), "server.Request")
+		}
+		if !isReq(root) {
+			// a stage of a handler written as a method of its per-request context object
+			if r2 := w.bodyRoot(fn); isReq(r2) {
+				root = r2
+			}
+		}
 		if len(root.Params) > 0 && strings.HasSuffix(root.Params[0].Type().String(), "server.Request") {
 			c.Anchor("C19.2", fname(root))
 			rk := w.key(root.Params[0])
@@ -203,7 +213,7 @@ func rawBase(v ssa.Value) ssa.Value {
 }
 
 func globalLoad(v ssa.Value) *ssa.Global {
-	v = stripIface(v)
+	v = stripIface(under(stripIface(v)))
 	if u, ok := v.(*ssa.UnOp); ok {
 		if g, ok := u.X.(*ssa.Global); ok {
 			return g
@@ -388,7 +398,7 @@ func ruleRetransmission(c *Ctx, rule string) {
 	}
 	// SetResponseCache
 	n := 0
-	w.eachInstr(h, func(in ssa.Instruction) {
+	w.eachInstrDeep(h, func(in ssa.Instruction) {
 		call, ok := in.(*ssa.Call)
 		if !ok || call.Call.StaticCallee() != setCache {
 			return
@@ -517,6 +527,11 @@ func ruleRetransmission(c *Ctx, rule string) {
 					return
 				}
 				g := w.guardedBy(in, get, -1, "nil", func(g *ssa.Call) bool { ok, _ := w.requestTuple(g.Call.Args[1], h); return ok })
+				if g == nil && os.Getenv("TURNCHECK_C19DEBUG") != "" {
+					for _, fd := range w.factsDesc(in) {
+						fmt.Fprintln(os.Stderr, "C19.5 create fact:", fd)
+					}
+				}
 				if g == nil && bad == "" {
 					bad = "CreateAllocation at " + w.instrPos(in) + " is not confined to the edge where GetAllocation(this request's 5-tuple) == nil: an Allocate on a 5-tuple that already has an allocation is not answered with 437"
 				}
